@@ -296,6 +296,43 @@ def rule_isal_w(ctx, P, r):
         r.fail(inst, func=g.name, sig='isa-l word size unchecked: ' + '; '.join(why), loc=site.loc,
                msg='a caller-supplied w reaches the ISA-L descriptor and the size arithmetic (w/8 may be 0 or disagree with the element size): ' + '; '.join(why))
 
+
+# ---------------------------------------------------------------- aligned, zero-filled allocation (R01b, R15c)
+def aligned_zero_alloc(P, fn, depth=0):
+    """what fn's returned buffer is, judged by what the code does rather than by which wrapper it calls:
+    -> dict(alignment=int|None, zeroed=bool, site=inst, how=str) or None when fn does not allocate with posix_memalign (directly
+    or through a function of the program that does).  zeroed: a memset(buf, 0, n) with n == the allocation size lies on every path
+    from the successful allocation to a return."""
+    from ..cfg import reaches_without
+    C = Canon(P, fn)
+    pm = [i for i in fn.insts() if i.op == 'call' and i.callee == '@posix_memalign']
+    if pm:
+        p0 = pm[0]
+        al = int(p0.ops[1]) if INT.match(p0.ops[1]) else None
+        slot = strip_ptr_casts(fn, p0.ops[0])
+        def is_fill(i):
+            if i.op != 'call' or not (i.callee or '').startswith('@llvm.memset') or i.ops[1] != '0':
+                return False
+            d = fn.defs.get(strip_ptr_casts(fn, i.ops[0]))
+            from_slot = d is not None and d.op == 'load' and strip_ptr_casts(fn, d.ops[0]) == slot
+            return from_slot and C.val(strip_int_casts(fn, i.ops[2])) == C.val(strip_int_casts(fn, p0.ops[2]))
+        zeroed = False
+        for b in fn.order:
+            t = b.insts[-1]
+            if t.op == 'br' and len(t.targets) == 2 and t.ops:
+                for at_, tv_ in implied_atoms_(fn, t.ops[0], True):
+                    if p0.res in at_.ops and '0' in at_.ops and at_.pred in ('eq', 'ne'):
+                        okdst = fn.blocks[t.targets[0] if (at_.pred == 'eq') == tv_ else t.targets[1]]
+                        zeroed = reaches_without(fn, okdst, lambda i: i.op == 'ret', is_fill) is None
+        return dict(alignment=al, zeroed=zeroed, site=p0, how='posix_memalign')
+    if depth < 3:
+        for i in fn.insts():
+            if i.op == 'call' and i.callee in P.fns and P.fns[i.callee].order and i.res and P.fns[i.callee].retty.strip().endswith('*'):
+                sub = aligned_zero_alloc(P, P.fns[i.callee], depth + 1)
+                if sub is not None:
+                    return dict(sub, site=i, how='through ' + i.callee)
+    return None
+
 # ---------------------------------------------------------------- R13e
 FRONT_UNITS = ('src/erasurecode.c', 'src/erasurecode_helpers.c', 'src/erasurecode_preprocessing.c', 'src/erasurecode_postprocessing.c')
 
